@@ -26,7 +26,7 @@ Inductive derr :=
 | E_DHT_INDEX | E_BAD_HUFF_TABLE | E_DQT_INDEX | E_DAC_INDEX | E_DAC_VALUE
 | E_UNKNOWN_MARKER | E_IMAGE_TOO_BIG | E_BAD_PRECISION | E_COMPONENT_COUNT
 | E_BAD_SAMPLING | E_BAD_MCU_SIZE | E_NO_QUANT_TABLE | E_NO_HUFF_TABLE
-| E_NO_ARITH_TABLE | E_BAD_PROGRESSION | E_ARITH_NOTIMPL | E_BAD_RESTART
+| E_NO_ARITH_TABLE | E_BAD_PROGRESSION | E_ARITH_NOTIMPL | E_BAD_RESTART | E_EOI_EXPECTED
 | E_OUT_OF_FUEL.
 
 (* --------------------------------------------------- input/effect state (io) *)
